@@ -491,9 +491,28 @@ type failSeeker struct {
 	pos       int
 	err       error
 	seekFails bool
+	firstOnly bool // the first pass fails half way, later passes are complete
+	passes    int
 }
 
 func (f *failSeeker) Read(p []byte) (int, error) {
+	if f.firstOnly { // a transient failure: the first pass over the data ends with an error after half of it, later passes are complete
+		lim := len(f.data)
+		if f.passes == 0 {
+			lim = len(f.data) / 2
+		}
+		if f.pos < lim {
+			n := copy(p, f.data[f.pos:lim])
+			f.pos += n
+			return n, nil
+		}
+		if f.passes == 0 {
+			f.passes++
+			f.pos = 0
+			return 0, errProducer
+		}
+		return 0, io.EOF
+	}
 	if f.pos < len(f.data) {
 		n := copy(p, f.data[f.pos:])
 		f.pos += n
@@ -512,6 +531,7 @@ func (f *failSeeker) Seek(o int64, w int) (int64, error) {
 	if f.seekFails {
 		return 0, errProducer
 	}
+	f.passes++
 	f.pos = 0
 	return 0, nil
 }
@@ -804,9 +824,19 @@ func Build(p Prog, seed int64, failSlot int, failWhen string, tmpdir string) (*B
 			c, when := content, failWhen
 			br := b.Broken
 			b.usesToggle = true
+			calls := 0
 			wf = func(w io.Writer) (int64, error) {
+				calls++
 				if (fail && when == "before") || br.On {
 					return 0, errProducer
+				}
+				if fail && when == "first" { // a transient failure: the first invocation fails after half of the data, later ones succeed
+					if calls == 1 {
+						k, _ := w.Write(c[:len(c)/2])
+						return int64(k), errProducer
+					}
+					k, err := w.Write(c)
+					return int64(k), err
 				}
 				var n int64
 				var err error
@@ -957,7 +987,7 @@ func Build(p Prog, seed int64, failSlot int, failWhen string, tmpdir string) (*B
 			if failWhen == "before" {
 				data = nil
 			}
-			rs := &failSeeker{data: data, seekFails: failWhen == "seek"}
+			rs := &failSeeker{data: data, seekFails: failWhen == "seek", firstOnly: failWhen == "first"}
 			if failWhen == "eof" { // a source that ends early reports an error wrapping io.EOF
 				rs.data = data[:len(data)/2]
 				rs.err = fmt.Errorf("source truncated: %w", io.ErrUnexpectedEOF)
